@@ -489,3 +489,112 @@ func TestC05OversizeHeaders(t *testing.T) {
 		})
 	})
 }
+
+// A block spread over several frames, decoded through proto.Reader (the way the client reads
+// compressed Data packets): whichever typed read - varint, string length, string body,
+// fixed-width batch, column data - first touches the altered frame, the decode fails, the
+// failure is a CorruptedDataErr with both checksums (length fields intact), and nothing of
+// the altered frame or after it reaches a column.
+func TestC05BlockOverAlteredFrames(t *testing.T) {
+	st := stats.G()
+	rapid.Check(t, func(rt *rapid.T) {
+		cols, rows := drawBlock(rt, 3)
+		rev := rapid.SampledFrom(blockRevs).Draw(rt, "rev")
+		e := &ref.Enc{}
+		ref.EncodeBlock(e, rev, refBlock(cols, ref.BlockInfo{BucketNum: -1}))
+		data, fields := e.B, e.Fields
+		if len(data) < 4 {
+			return
+		}
+		// Frame boundaries: steered to land right after a length prefix or inside a field.
+		nf := rapid.IntRange(2, 4).Draw(rt, "frames")
+		cutSet := map[int]bool{}
+		for len(cutSet) < nf-1 {
+			var p int
+			if len(fields) > 0 && rapid.IntRange(0, 2).Draw(rt, "steer") > 0 {
+				f := fields[rapid.IntRange(0, len(fields)-1).Draw(rt, "field")]
+				p = f.Off + rapid.SampledFrom([]int{0, 1, f.Len / 2, f.Len - 1, f.Len}).Draw(rt, "in-field")
+			} else {
+				p = rapid.IntRange(1, len(data)-1).Draw(rt, "cut")
+			}
+			if p >= 1 && p <= len(data)-1 {
+				cutSet[p] = true
+			} else if len(data)-1 < nf {
+				break
+			}
+		}
+		var cuts []int
+		for p := 0; p < len(data); p++ {
+			if cutSet[p] {
+				cuts = append(cuts, p)
+			}
+		}
+		cuts = append(cuts, len(data))
+		ms := c05methods()
+		var frames [][]byte
+		var starts []int
+		prev, total := 0, 0
+		for _, c := range cuts {
+			m := ms[rapid.IntRange(0, len(ms)-1).Draw(rt, "method")]
+			f, err := libCompress(m, data[prev:c])
+			if err != nil {
+				rt.Fatalf("compress: %v", err)
+			}
+			starts = append(starts, total)
+			frames = append(frames, f)
+			total += len(f)
+			prev = c
+		}
+		stream := bytes.Join(frames, nil)
+		inferable := true
+		for _, c := range cols {
+			inferable = inferable && autoInferable(c.Kind.T.Name)
+		}
+		if err := decodeTypedCompressed(stream, rev, cols, false); err != nil {
+			rt.Fatalf("harness: intact stream of %d frames does not decode: %v", len(frames), err)
+		}
+		// Alter one byte of a frame after the first (the first is covered by TestC05Alterations).
+		fi := rapid.IntRange(1, len(frames)-1).Draw(rt, "altered-frame")
+		var n int64
+		offs := []int{0, 15, 16, 17, 21, 25, len(frames[fi]) - 1}
+		for i := 0; i < 6; i++ {
+			offs = append(offs, rapid.IntRange(0, len(frames[fi])-1).Draw(rt, "offset"))
+		}
+		for _, off := range offs {
+			if off >= len(frames[fi]) {
+				continue
+			}
+			alt := append([]byte(nil), stream...)
+			alt[starts[fi]+off] ^= byte(rapid.IntRange(1, 255).Draw(rt, "mask"))
+			for _, auto := range []bool{false, true} {
+				if auto && !inferable {
+					continue
+				}
+				n++
+				err := decodeTypedCompressed(alt, rev, cols, auto)
+				if err == nil || isPanic(err) {
+					rt.Fatalf("block %v over %d frames (cuts %v), frame %d altered at offset %d, auto=%v: decode returned %v", typeNames(cols), len(frames), cuts, fi, off, auto, err)
+				}
+				if off < 17 || off > 24 {
+					var ce *compress.CorruptedDataErr
+					if !errors.As(err, &ce) {
+						rt.Fatalf("block %v over %d frames (cuts %v), frame %d altered at offset %d (length fields intact), auto=%v: error %q is not a CorruptedDataErr", typeNames(cols), len(frames), cuts, fi, off, auto, err)
+					}
+					fr := alt[starts[fi] : starts[fi]+len(frames[fi])]
+					stored := city.U128{Low: binary.LittleEndian.Uint64(fr[0:]), High: binary.LittleEndian.Uint64(fr[8:])}
+					if ce.Reference != stored || ce.Actual != city.CH128(fr[16:]) {
+						rt.Fatalf("CorruptedDataErr carries reference=%v actual=%v, want %v / %v", ce.Reference, ce.Actual, stored, city.CH128(fr[16:]))
+					}
+				}
+			}
+		}
+		st.Enumerated(n, n)
+		_, inside := insideField(fields, cuts[fi-1])
+		if inside {
+			st.Label("altered-frame-starts-inside-a-field")
+		}
+		st.Case(stats.Hash("c05blk", stream, fi, rev), true, func() any {
+			return map[string]any{"kind": "block-over-altered-frames", "types": typeNames(cols), "rows": rows, "frames": len(frames), "cuts": cuts, "altered_frame": fi}
+		})
+	})
+}
